@@ -108,6 +108,28 @@ func observerBoundary(r *Rng) []c12Case {
 			g.op("deq", 40*sec, 100)
 		})
 	}
+	// sinks that refuse: every post-processor of the chain must still see the whole result list
+	for k := kLog; k <= kSample; k++ {
+		k := k
+		add("sinks-refuse-"+kindNames[k], 4, func(g *gen) {
+			// work ids 1.. cycle eligible / ineligible / retry / failed / retry / failed-eligible / retry-eligible
+			g.c.UFail = []int{2, 9}     // two of the ineligible results
+			g.c.QFail = []int{3, 5, 10} // three of the retryable failures
+			g.proc(k, 0, g.mixed(1, 14, 5)...)
+			g.proc(k, 2*sec, g.mixed(1, 7, 6)...)
+			g.op("retry", 40*sec, 100)
+			g.op("deq", 80*sec, 100)
+		})
+	}
+	add("updater-refuses-first-ineligible", 4, func(g *gen) {
+		g.c.UFail = []int{1}
+		g.proc(kRecProp, 0, g.pl(1, 5, 1, okI), g.pl(2, 5, 1, okE), g.pl(3, 5, 1, okI), g.pl(4, 5, 1, okE))
+	})
+	add("queue-refuses-then-ineligible", 4, func(g *gen) {
+		g.c.QFail = []int{1}
+		g.proc(kLog, 0, g.pl(1, 5, 1, retry(0)), g.pl(2, 5, 1, okI), g.pl(3, 5, 1, okE), g.pl(4, 5, 1, retry(1*sec), okE))
+		g.op("retry", 40*sec, 10)
+	})
 	add("all-batches-fail-with-cached", 4, func(g *gen) {
 		g.proc(kLog, 0, g.pl(1, 5, 1), g.pl(2, 5, 1))
 		ps := []kit.Payload{g.pl(1, 5, 1), g.pl(3, 5, 1, kit.Spec{Mode: 1}), g.pl(2, 5, 1), g.pl(4, 5, 1, retry(0))}
@@ -191,6 +213,16 @@ func observerRandom(r *Rng) c12Case {
 	c := c12Case{Family: "random", Mode: "observer", Workers: []int{1, 2, 4, 16}[r.Intn(4)], Cexp: []int64{defCexp, 3 * sec}[r.Intn(2)]}
 	g := &gen{r: r, c: &c}
 	pool := []int{3, 6, 12}[r.Intn(3)]
+	if r.Chance(1, 3) {
+		for w := 1; w <= pool; w++ {
+			if r.Chance(1, 3) {
+				c.UFail = append(c.UFail, w)
+			}
+			if r.Chance(1, 4) {
+				c.QFail = append(c.QFail, w)
+			}
+		}
+	}
 	at := int64(0)
 	nsteps := 3 + r.Intn(8)
 	for i := 0; i < nsteps; i++ {
@@ -266,6 +298,16 @@ func flowsBoundary(r *Rng) []c12Case {
 		g.inject(kLog, 7, g.mixed(100, 12, 5)...)
 		g.c.Steps = append(g.c.Steps, c12Step{Op: "idle", At: 41 * sec})
 	})
+	add("every-flow-with-refusing-sinks", func(g *gen) {
+		g.c.UFail = []int{2, 21, 23, 44, 61, 82}
+		g.c.QFail = []int{3, 5, 62, 64, 83}
+		g.inject(kLog, 1, g.mixed(1, 7, 5)...)
+		g.inject(kRecProp, 2, g.mixed(20, 6, 5)...)
+		g.inject(kSample, 3, g.mixed(40, 6, 5)...)
+		g.inject(kRecFinal, 4, g.mixed(60, 6, 5)...)
+		g.inject(kCondFinal, 6, g.mixed(80, 6, 5)...)
+		g.c.Steps = append(g.c.Steps, c12Step{Op: "idle", At: 41 * sec})
+	})
 	add("final-flows-batches", func(g *gen) {
 		g.inject(kRecFinal, 1, g.mixed(1, 23, 5)...)
 		g.inject(kCondFinal, 2, g.mixed(40, 23, 5)...)
@@ -296,6 +338,16 @@ func flowsRandom(r *Rng) c12Case {
 			wid++
 		}
 		g.inject(kind, k, ps...)
+	}
+	if r.Chance(1, 3) {
+		for w := 1; w < wid; w++ {
+			if r.Chance(1, 4) {
+				c.UFail = append(c.UFail, w)
+			}
+			if r.Chance(1, 5) {
+				c.QFail = append(c.QFail, w)
+			}
+		}
 	}
 	c.Steps = append(c.Steps, c12Step{Op: "idle", At: int64(slots+11) * sec})
 	return c
@@ -395,7 +447,9 @@ func coqQStep(o stepObs) string {
 }
 
 func plTerm(c c12Case) string {
-	return fmt.Sprintf("mkPlCase %s RetryDefaultInterval RetryDefaultExpiration %s %s", CoqZ(c.Cexp), kit.CoqScript(c.Script), CoqList(c.Obs, coqStep))
+	ns := func(xs []int) string { return CoqList(xs, func(x int) string { return fmt.Sprintf("%d", x) }) }
+	return fmt.Sprintf("mkPlCase %s RetryDefaultInterval RetryDefaultExpiration %s %s %s %s", CoqZ(c.Cexp), kit.CoqScript(c.Script),
+		ns(c.UFail), ns(c.QFail), CoqList(c.Obs, coqStep))
 }
 
 func qTerm(c c12Case) string {
